@@ -198,6 +198,45 @@ func decode(t schema.Type, doc string, format string) (rv reflect.Value, err err
 	return dyn.Unmarshal(S, t, r)
 }
 
+// failedDecode performs decodes that are aborted midway (a malformed leaf after, or before, required fields were seen;
+// a value at an excluded path), through the JSON, ROR2 and untyped readers: what a server does with a bad request.
+// Decodes that follow must not be influenced.
+func failedDecode(n int) {
+	if n <= 0 {
+		return
+	}
+	for _, name := range []string{"vt.Inner", "vt.Deep", "vt.Lat0Sib1"} {
+		t := typeOrNilCommon(name)
+		if t == nil {
+			continue
+		}
+		for _, doc := range []string{`{"n":"bad"}`, `{"leaf":{"i":"bad"}}`, `{"leaf":{"s":"x"},"n":[]}`, `{"one":{"n":1,"leaf":{"s":7}}}`, `{"r00":"bad"}`} {
+			hx.Try(func() { _, _ = decode(*t, doc, "json") })
+		}
+		for _, doc := range []string{"(n:bad)", "(leaf:(i:bad))", "(leaf:(s:x),n:List())", "(r00:bad)"} {
+			hx.Try(func() { _, _ = decode(*t, doc, "header") })
+		}
+		hx.Try(func() {
+			r, err := restlicodec.NewJsonReaderWithExcludedFields([]byte(`{"leaf":{"s":"x"},"n":1}`), restlicodec.NewPathSpec("n"), 0)
+			if err == nil {
+				_, _ = dyn.Unmarshal(S, *t, r)
+			}
+		})
+		hx.Try(func() {
+			_, _ = dyn.Unmarshal(S, *t, restlicodec.NewInterfaceReader(map[string]any{"n": "bad", "leaf": map[string]any{"i": "bad"}}))
+		})
+	}
+}
+
+func typeOrNilCommon(name string) *schema.Type {
+	for i := range roots {
+		if roots[i].String() == name {
+			return &roots[i]
+		}
+	}
+	return nil
+}
+
 func fillDefaults(t schema.Type, v *aval.V) *aval.V {
 	return aval.FillDefaults(S, t, v, refcodec.Defaults(S))
 }
